@@ -49,7 +49,7 @@ def efficiency_bin(G, local=False):
         np.fill_diagonal(D, 0)
         return D
 
-    G = binarize(G)
+    G = binarize(G).astype(float)  # (matrix products wrap around in narrow integer types)
     n = len(G)  # number of nodes
     if local:
         E = np.zeros((n,))  # local efficiency
